@@ -39,11 +39,73 @@ def case_key(k):
     return k
 
 
+LIVE_KINDS = ['iter', 'map', 'reversed', 'zip', 'filter', 'enumerate', 'set', 'frozenset', 'range', 'keys', 'values', 'deque', 'bytes']
+
+
+def live_value(kind, items):
+    """A live Python value that JSON has no notation for (one-shot iterators, sets, views, ...)."""
+    import collections
+    if kind == 'iter':
+        return iter(items)
+    if kind == 'map':
+        return map(str, items)
+    if kind == 'reversed':
+        return reversed(items)
+    if kind == 'zip':
+        return zip(items, items)
+    if kind == 'filter':
+        return filter(None, items)
+    if kind == 'enumerate':
+        return enumerate(items)
+    if kind == 'set':
+        return set(items)
+    if kind == 'frozenset':
+        return frozenset(items)
+    if kind == 'range':
+        return range(len(items))
+    if kind == 'keys':
+        return dict.fromkeys(items).keys()
+    if kind == 'values':
+        return {i: v for i, v in enumerate(items)}.values()
+    if kind == 'deque':
+        return collections.deque(items)
+    if kind == 'bytes':
+        return ''.join(map(str, items)).encode()
+    raise ValueError(kind)
+
+
+def live_dump(x):
+    """A comparable dump of a value that may hold live objects: what a one-shot iterator STILL has to give is part of
+    the value (read from a deep copy, so looking does not consume it)."""
+    import copy
+    if isinstance(x, dict):
+        return {case_key(k): live_dump(v) for k, v in x.items()}
+    if isinstance(x, (list, tuple)):
+        return [live_dump(v) for v in x]
+    if isinstance(x, (str, int, float, bool)) or x is None:
+        return x
+    if isinstance(x, (set, frozenset)):
+        return {'__set__': sorted(repr(v) for v in x)}
+    if isinstance(x, (bytes, bytearray, range)):
+        return {'__%s__' % type(x).__name__: repr(x)}
+    if hasattr(x, '__next__'):
+        try:
+            return {'__iterator__': type(x).__name__, 'remaining': [live_dump(v) for v in copy.deepcopy(x)]}
+        except Exception:
+            return {'__iterator__': type(x).__name__}
+    try:
+        return {'__%s__' % type(x).__name__: [live_dump(v) for v in list(x)]}
+    except Exception:
+        return {'__object__': type(x).__name__}
+
+
 def py_json(j):
     """case-JSON -> python object for json.dumps (with BAD leaves turned into an unserialisable object)."""
     if isinstance(j, dict):
         if j == BAD:
             return Unserialisable()
+        if '__live__' in j:
+            return live_value(j['__live__'], [py_json(v) for v in j['items']])
         return {py_key(k): py_json(v) for k, v in j.items()}
     if isinstance(j, list):
         return [py_json(v) for v in j]
